@@ -15,3 +15,4 @@ git -C /repo checkout -- .
 git -C /repo status --short
 python3 /verif/extract/extract.py /repo/src /verif/lean/Kanal/Generated.lean >/dev/null
 python3 /verif/extract/rs2lean.py /repo/src /verif/lean/Kanal/GenCode.lean >/dev/null
+python3 /verif/extract/rs2proto.py /repo/src /verif/lean/Kanal/GenProto.lean >/dev/null
